@@ -251,8 +251,8 @@ class C10(Harness):
                     continue
                 if not any(k in prog for k in 'cgbG'):
                     continue
-                if n >= 3 and tier == 'quick' and sum(k in 'rG' for k in prog) > 1:
-                    continue          # (quick: at most one of the two newer kinds in the longest programs)
+                if n >= (3 if tier == 'quick' else 4) and sum(k in 'rG' for k in prog) > 1:
+                    continue          # (at most one of the two newer kinds in the longest programs of the tier)
                 out.append({'program': list(prog), 'shared_fn': False, 'budget': B})
                 if prog[0] in 'cgbG' and n <= 3:
                     out.append({'program': list(prog), 'shared_fn': False, 'budget': max(1, B - 1), 'ctor_first': True})
